@@ -726,11 +726,11 @@ func (h *handler) run(ctx context.Context, middlewares []middleware) {
 
 	for msg := range h.messagesCh {
 		verifhook.At("router.life.loop.recv", h.name)
-		verifhook.At("router.handler.received", h.name, msg.UUID)
+		verifhook.At("router.handler.received", h.name, verifKey(msg))
 		h.runningHandlersWgLock.Lock()
-		verifhook.At("router.handler.wg_locked", h.name, msg.UUID)
+		verifhook.At("router.handler.wg_locked", h.name, verifKey(msg))
 		h.runningHandlersWg.Add(1)
-		verifhook.At("router.handler.wg_added", h.name, msg.UUID)
+		verifhook.At("router.handler.wg_added", h.name, verifKey(msg))
 		h.runningHandlersWgLock.Unlock()
 
 		go h.handleMessage(msg, middlewareHandler)
@@ -894,8 +894,8 @@ func (h *handler) handleClose(ctx context.Context) {
 
 func (h *handler) handleMessage(msg *Message, handler HandlerFunc) {
 	defer h.runningHandlersWg.Done()
-	defer verifhook.At("router.handler.msg.done", h.name, msg.UUID)
-	verifhook.At("router.handler.msg.start", h.name, msg.UUID)
+	defer verifhook.At("router.handler.msg.done", h.name, verifKey(msg))
+	verifhook.At("router.handler.msg.start", h.name, verifKey(msg))
 	msgFields := watermill.LogFields{"message_uuid": msg.UUID}
 
 	defer func() {
